@@ -160,11 +160,14 @@ ASBUILT = {
   `unsupplied_junctions`. **Open findings:** flow controllers / consumers as edges, undirected pressure controllers.""",
 "C19": """* **As built (`props/c19.py`):** data files re-read by the oracle for all 8 library fluids; shapes for scalar / ndarray / Series /
   length-1 queries; integral laws for all property classes incl. user-built ones; mixtures with 2-5 components (1-d and 2-d
-  forms); library and user pumps (from lists and polynomials) with flows of both signs; all 285 standard pipe types.
+  forms); library and user pumps (from lists and polynomials) with flows of both signs; all 285 standard pipe types - half of
+  them after a pipe of the same type was created with individual `k_mm` / `u_w_per_m2k` overrides (single or bulk call), and the
+  net's library entry itself is compared with the data file afterwards (added after seeded change R2_C19).
   **Found and fixed:** InterExtra integral (upper limit twice) and Linear integral (AttributeError), pump array branch,
   hydrogen compressibility derivative.""",
 "C20": """* **As built (`props/c20.py`):** multinets of 2-4 members (random gas net, second gas net with another fluid, pandapower example
-  net, by-standing heating loop) with P2G, G2P (gas-led and power-led), G2G controllers on scalar and vectorised indices,
+  net, by-standing heating loop) with P2G, G2P (gas-led and power-led, the power-led one with 1-3 units whose partner indices differ and are paired in
+  permuted order - seeded change R2_C20), G2G controllers on scalar and vectorised indices,
   non-unit scalings, random orders / levels; heating values re-read from the data files; forth-and-back through a fresh G2P
   unit; members vs stand-alone pipeflow (bit-identical) / runpp (1e-10); converged flag; an overloaded member is judged only
   if its stand-alone pipeflow really fails (some overloaded gas nets still "converge" numerically); coupled time series of
